@@ -1122,7 +1122,7 @@ class FileBuilder:
         try:
             return self._simple_operation_executor.file_comparison_result(
                 filename, file_comparison.name)
-        except (FileNotFoundError, IsADirectoryError):
+        except (FileNotFoundError, IsADirectoryError, NotADirectoryError):
             return None
 
     def _is_build_file_cached(self, operation):
